@@ -948,15 +948,17 @@ static void enum_graphs(int level, bool relabel, const std::function<bool(const 
   }
 }
 static void enum_plain(int level, const std::function<bool(const json &)> &emit) { enum_graphs(level, false, emit); }
+// the cheap, already well covered subs stop at 6 vertices; the 7-vertex sweep is spent on reduce / equiv / breakinto
+static void enum_plain6(int level, const std::function<bool(const json &)> &emit) { enum_graphs(std::min(level, 6), false, emit); }
 static void enum_rel(int level, const std::function<bool(const json &)> &emit) { enum_graphs(level, true, emit); }
 
 int main(int argc, char **argv) {
   std::vector<Sub> subs;
-  subs.push_back({"bfs", gen_graph24, run_bfs, 1.0, 100, enum_plain});
-  subs.push_back({"components", gen_graph40, run_components, 1.0, 100, enum_plain});
-  subs.push_back({"single", gen_graph24, run_single, 1.0, 100, enum_plain});
-  subs.push_back({"reduce", gen_graph40, run_reduce, 2.0, 100, enum_plain});
   subs.push_back({"equiv", gen_rel24, run_equiv, 1.0, 100, enum_rel});
+  subs.push_back({"reduce", gen_graph40, run_reduce, 2.0, 100, enum_plain});
   subs.push_back({"breakinto", gen_rel40, run_breakinto, 1.0, 100, enum_rel});
+  subs.push_back({"bfs", gen_graph24, run_bfs, 1.0, 100, enum_plain6});
+  subs.push_back({"components", gen_graph40, run_components, 1.0, 100, enum_plain6});
+  subs.push_back({"single", gen_graph24, run_single, 1.0, 100, enum_plain6});
   return harness_main(argc, argv, "C16", subs);
 }
